@@ -25,7 +25,8 @@ NT_RULE = ('reference sets of 1-8 species over 1-5 descriptors (elements or a cu
            'with present and absent descriptors, T 50-5000 K, histories of append/extend/pop + refit.  '
            'non-trivial = >=2 descriptors or rank-deficient or a history with a refit; distinct = canonical JSON')
 REQUIRED_ORACLES = ['X1', 'X2', 'X3', 'X4', 'X5']
-REQUIRED_CLASSES = ['tref:spread<0.01K', 'descriptor:signed_counts', 'descriptor:column_total<=0', 'T:within_1e-5_of_T_ref',
+REQUIRED_CLASSES = ['descriptor:keys=str', 'descriptor:keys=int', 'descriptor:keys=tuple', 'options:S_elements+use_references',
+                    'tref:spread<0.01K', 'descriptor:signed_counts', 'descriptor:column_total<=0', 'T:within_1e-5_of_T_ref',
                     'history:second_live_set', 'rank:unique', 'rank:overdetermined', 'rank:deficient', 'rank:deficient:square_cond_below_1/eps', 'tref:equal', 'tref:spread',
                     'descriptor:elements', 'descriptor:custom', 'history:append', 'history:pop', 'history:extend', 'history:dict_copy',
                     'target:absent_descriptor']
@@ -137,7 +138,8 @@ def generate(rng, tier, near_regular=None):
     Ts = [round(S.logu(rng, 50, 5000), 3) for _ in range(3)]
     # the neighbourhood of the reference temperature (not the temperature itself) and the temperature itself
     Ts += [T0 * (1 + rng.choice([-1, 1]) * rng.choice([1e-9, 1e-6, 4e-6, 9e-6, 3e-5])), T0]
-    return {'descriptor': 'groups' if custom else 'elements', 'descs': descs, 'refs': refs, 'n0': n0, 'ops': ops,
+    return {'descriptor': 'groups' if custom else 'elements', 'key_type': rng.choice(['str', 'str', 'int', 'tuple']),
+            'descs': descs, 'refs': refs, 'n0': n0, 'ops': ops,
             'targets': targets, 'Ts': Ts}
 
 
@@ -166,13 +168,28 @@ def install_probes(pr, ctx):
     pr.watch(lambda: __import__('pmutt.statmech', fromlist=['x']).StatMech.get_quantity, 'StatMech.get_quantity')
 
 
+_KEY_TYPE = {'t': 'str'}
+
+
+def _keys(comp):
+    """the dictionary handed to pMuTT: custom descriptor labels may be any hashable (integer group ids, bond
+    tuples); the spec keeps strings, the mapping is one-to-one"""
+    kt = _KEY_TYPE['t']
+    if kt == 'int':
+        return {(GROUP_POOL + ['Xx', 'Yy']).index(k) + 10 if k in GROUP_POOL + ['Xx', 'Yy'] else hash(k) % 1000 + 100: v
+                for k, v in comp.items()}
+    if kt == 'tuple':
+        return {('grp', k): v for k, v in comp.items()}
+    return dict(comp)
+
+
 def _mk_reference(r, descriptor):
     from pmutt.empirical.references import Reference
     model = S.build_statmech(r['model'])
     kw = {'elements': dict(r['comp'])} if descriptor == 'elements' else {}
     ref = Reference(name=r['name'], T_ref=r['T_ref'], HoRT_ref=r['HoRT_ref'], model=model, **kw)
     if descriptor != 'elements':
-        setattr(ref, descriptor, dict(r['comp']))
+        setattr(ref, descriptor, _keys(r['comp']))
     return ref
 
 
@@ -180,7 +197,7 @@ def _species(model_spec, comp, descriptor, references):
     sp = S.build_statmech(dict(model_spec, elements=dict(comp) if descriptor == 'elements' else None),
                           references=references)
     if descriptor != 'elements':
-        setattr(sp, descriptor, dict(comp))
+        setattr(sp, descriptor, _keys(comp))
     return sp
 
 
@@ -293,6 +310,27 @@ def _check_set(ctx, spec, refs_obj, current, tag):
                           scale=scale * T + max(abs(x) for x in off_ref.values()) * T_ref * sum(comp.values()))
             ctx.check('X5', vals['H_sw'] == vals['H_off'] and vals['G_sw'] == vals['G_off'], dict(mech, what='bitwise'),
                       H_sw=vals['H_sw'], H_off=vals['H_off'], G_sw=vals['G_sw'], G_off=vals['G_off'])
+            # options in PAIRS: G of formation (S_elements) with references switched off / on
+            if descriptor == 'elements' and all(v == int(v) and v >= 0 for v in comp.values()) and not absent:
+                try:
+                    from pmutt import constants as c_
+                    known = all(d in c_.S_elements for d in comp)
+                except Exception:
+                    known = False
+                if known:
+                    gs = {}
+                    for nm, fn, kw in (('on', on.get_GoRT, {}), ('sw', on.get_GoRT, {'use_references': False}),
+                                       ('off', off.get_GoRT, {})):
+                        v = ctx.call('X5', dict(mech, what='S_elements+use_references', step=nm), fn, T=T,
+                                     S_elements=True, **kw)
+                        if v is not core.NOVALUE:
+                            gs[nm] = _f(v)
+                    if len(gs) == 3:
+                        ctx.cls('options:S_elements+use_references')
+                        ctx.check('X5', gs['sw'] == gs['off'], dict(mech, what='S_elements+use_references_off'),
+                                  sw=gs['sw'], off=gs['off'])
+                        ctx.close('X3', (gs['on'] - gs['off']) * T, eH, 1e-9, dict(m3, what='G_gets_same_energy',
+                                                                                   options='S_elements'), scale=scale * T)
             # a temperature addressed to this species through its <name>_kwargs block must reach the reference
             # adjustment as well as the modes
             blk = {'%s_kwargs' % tg['model']['name']: {'T': T}}
@@ -326,6 +364,9 @@ def run_case(spec, ctx):
     from pmutt.empirical.references import References
     descriptor = spec['descriptor']
     ctx.cls('descriptor:' + ('elements' if descriptor == 'elements' else 'custom'))
+    _KEY_TYPE['t'] = spec.get('key_type', 'str') if descriptor != 'elements' else 'str'
+    if descriptor != 'elements':
+        ctx.cls('descriptor:keys=' + _KEY_TYPE['t'])
     objs = [_mk_reference(r, descriptor) for r in spec['refs']]
     current = list(range(spec['n0']))
     refs = ctx.call('X1', {'step': 'construct'}, References, references=[objs[i] for i in current],
